@@ -440,6 +440,7 @@ class World:
         self.stepclock = stepclock
         self.ref = ref
         base = "/dev/shm" if os.path.isdir("/dev/shm") else "/tmp"
+        # (a directory name with a dot in it is as legal a place to work in as any: `john.doe`, `boards.v2`)
         self.root = os.path.realpath(os.path.join(base, "cr-sim-%d-%s" % (os.getpid(), tag)))
         if os.path.exists(self.root):
             shutil.rmtree(self.root)
